@@ -178,25 +178,34 @@ func main() {
 				}
 			}
 			res := "ok"
-			if *desyncBin != "" && sc%8 == 0 {
+			if *desyncBin != "" && sc%5 == 0 {
 				// through the CLI: an index that references the kept chunks
-				idx := desync.Index{Index: desync.FormatIndex{FeatureFlags: desync.CaFormatExcludeNoDump | desync.CaFormatSHA512256, ChunkSizeMin: 1, ChunkSizeAvg: 2, ChunkSizeMax: 100000}}
-				var pos uint64
-				for _, id := range keepN {
-					idx.Chunks = append(idx.Chunks, desync.IndexChunk{ID: ids[id], Start: pos, Size: uint64(len(datas[id]))})
-					pos += uint64(len(datas[id]))
+				// the kept chunks are spread over one to three index files (the last one may be empty)
+				nidx := 1 + r.Intn(3)
+				var ips []string
+				for part := 0; part < nidx; part++ {
+					idx := desync.Index{Index: desync.FormatIndex{FeatureFlags: desync.CaFormatExcludeNoDump | desync.CaFormatSHA512256, ChunkSizeMin: 1, ChunkSizeAvg: 2, ChunkSizeMax: 100000}}
+					var pos uint64
+					for k, id := range keepN {
+						if k%nidx != part && !(part == 0 && r.Intn(4) == 0) {
+							continue
+						}
+						idx.Chunks = append(idx.Chunks, desync.IndexChunk{ID: ids[id], Start: pos, Size: uint64(len(datas[id]))})
+						pos += uint64(len(datas[id]))
+					}
+					var ib bytes.Buffer
+					idx.WriteTo(&ib)
+					ip := filepath.Join(*dir, fmt.Sprintf("keep%d.caibx", part))
+					os.WriteFile(ip, ib.Bytes(), 0644)
+					ips = append(ips, ip)
 				}
-				var ib bytes.Buffer
-				idx.WriteTo(&ib)
-				ip := filepath.Join(*dir, "keep.caibx")
-				os.WriteFile(ip, ib.Bytes(), 0644)
 				args := []string{"prune", "--yes", "-s", base}
 				if fm == "raw" {
 					cfgp := filepath.Join(*dir, "cfg.json")
 					os.WriteFile(cfgp, []byte(fmt.Sprintf(`{"store-options": {"%s": {"uncompressed": true}}}`, base)), 0644)
 					args = append([]string{"--config", cfgp}, args...)
 				}
-				args = append(args, ip)
+				args = append(args, ips...)
 				if err := exec.Command(*desyncBin, args...).Run(); err != nil {
 					res = "error"
 				}
